@@ -72,39 +72,54 @@ def run(repo, chk):
     sim_fn = repo.func(CTRL, "SimTimeCondition.evaluate")
     tod_fn = repo.func(CTRL, "TimeOfDayCondition.evaluate")
     chk.fn(sim_fn, tod_fn)
-    thr = 2 * H
-    pairs_once = [(0.0, 1 * H), (1 * H, 1.5 * H), (1.5 * H, 2 * H), (1.5 * H, 2.5 * H), (2 * H, 3 * H), (3 * H, 4 * H), (25 * H, 26.5 * H)]
+    def dense_pairs(tmax_h, steps_h=(0.5, 1.0, 1.5), grain_h=0.5):
+        out = []
+        t = 0.0
+        while t <= tmax_h:
+            for st in steps_h:
+                out.append((t * H, (t + st) * H))
+            t += grain_h
+        return out
 
     def table(kind, rel, repeat):
-        """-> list of (region, ok, detail)"""
+        """-> list of (region, ok, detail).  Representative points of every ordering of previous < current time against the threshold instants:
+        a half-hour lattice over two days with steps of 0.5, 1 and 1.5 h (so that instants on and off the step boundaries, steps straddling
+        midnight and steps containing no instant all occur), thresholds on the lattice, off the lattice, at 0:00 and just before midnight, and
+        a start_clocktime of 0 and 6 h."""
         rows = []
         if kind == "sim":
             period = None if not repeat else 10 * H
-            pairs = pairs_once if not repeat else [(0.0, 1 * H), (1 * H, 3 * H), (3 * H, 4 * H), (11 * H, 13 * H), (13 * H, 14 * H), (21.5 * H, 22 * H)]
-            for prev, cur in pairs:
-                model = Obj("wn", {"sim_time": cur, "_prev_sim_time": prev})
-                attrs = {"_model": model, "_threshold": thr, "_relation": comparison(rel), "_repeat": (period if repeat else False), "_backtrack": 0, "_first_time": 0}
-                try:
-                    res, bt = run_eval(sim_fn, attrs)
-                except Raised:
-                    rows.append(((prev, cur), False, "raised"))
-                    continue
-                rows.append(judge(rel, prev, cur, thr, period, res, bt, frame=lambda t: t if period is None else ((t - thr) % period + thr if t >= thr else t)))
+            for thr in (2 * H, 0.0, 3.25 * H):
+                for prev, cur in dense_pairs(30 if repeat else 8):
+                    if prev == 0.0 and thr == 0.0:
+                        continue      # the instant t = 0 is the initial state, not a crossing
+                    model = Obj("wn", {"sim_time": cur, "_prev_sim_time": prev})
+                    attrs = {"_model": model, "_threshold": thr, "_relation": comparison(rel), "_repeat": (period if repeat else False), "_backtrack": 0, "_first_time": 0}
+                    try:
+                        res, bt = run_eval(sim_fn, attrs)
+                    except Raised:
+                        rows.append((("thr=%gh prev=%gh cur=%gh" % (thr / H, prev / H, cur / H)), False, "raised"))
+                        continue
+                    rows.append(judge(rel, prev, cur, thr, period, res, bt, frame=lambda t, thr=thr, period=period: t if period is None else ((t - thr) % period + thr if t >= thr else t)))
         else:
             period = DAY if repeat else None
-            start = 0.0
-            pairs = [(0.0, 1 * H), (1 * H, 1.5 * H), (1.5 * H, 2 * H), (1.5 * H, 2.5 * H), (2 * H, 3 * H), (3 * H, 4 * H), (4 * H, 5 * H)]
-            if repeat:
-                pairs += [(25 * H, 25.5 * H), (25.5 * H, 26.5 * H), (26 * H, 27 * H), (30 * H, 31 * H)]
-            for prev, cur in pairs:
-                model = Obj("wn", {"_shifted_time": cur + start, "_prev_shifted_time": prev + start})
-                attrs = {"_model": model, "_threshold": thr, "_relation": comparison(rel), "_repeat": bool(repeat), "_backtrack": 0, "_first_day": 0}
-                try:
-                    res, bt = run_eval(tod_fn, attrs)
-                except Raised:
-                    rows.append(((prev, cur), False, "raised"))
-                    continue
-                rows.append(judge(rel, prev, cur, thr, period, res, bt, frame=(lambda t: t % DAY) if repeat else (lambda t: t)))
+            for thr in (2 * H, 23.5 * H, 0.0, 12.25 * H):
+                for start in (0.0, 6 * H):
+                    for prev, cur in dense_pairs(50 if repeat else 26):
+                        sp_, sc_ = prev + start, cur + start
+                        if not repeat and (sc_ >= DAY):
+                            continue          # a once-only clock-time condition lives on its first day
+                        if prev == 0.0 and (thr - start) % DAY == 0.0:
+                            continue          # threshold instant == start of the simulation: initial state, not a crossing
+                        model = Obj("wn", {"_shifted_time": sc_, "_prev_shifted_time": sp_})
+                        attrs = {"_model": model, "_threshold": thr, "_relation": comparison(rel), "_repeat": bool(repeat), "_backtrack": 0, "_first_day": 0}
+                        try:
+                            res, bt = run_eval(tod_fn, attrs)
+                        except Raised:
+                            rows.append((("thr=%gh start=%gh prev=%gh cur=%gh" % (thr / H, start / H, prev / H, cur / H)), False, "raised"))
+                            continue
+                        r_ = judge(rel, sp_, sc_, thr, period, res, bt, frame=(lambda t: t % DAY) if repeat else (lambda t: t))
+                        rows.append(("thr=%gh start=%gh %s" % (thr / H, start / H, r_[0]), r_[1], r_[2]))
         return rows
 
     def judge(rel, prev, cur, thr, period, res, bt, frame):
